@@ -11,6 +11,10 @@
 //	kind "race": free running: records flow, several goroutines call Reconfigure
 //	             concurrently (with failing Opens and cancelled contexts), optional
 //	             graceful close or kill in the middle. Only the monitor decides.
+//	kind "svc":  the real lifecycle.Service.ReconfigureProcessor on a running v1 pipeline (chains).
+//	kind "flag": operation histories over the real processor.Service + lifecycle.Service: the
+//	             running flag across starts, live reconfigurations (swap, failed build of every
+//	             kind, failed open), stops and restarts, probed through Update/Delete/MakeRunnableProcessor.
 //	kind "v2":   lifecycle-poc's ReconfigureProcessor is the constant sentinel.
 package main
 
@@ -34,6 +38,7 @@ import (
 	lifecyclev1 "github.com/conduitio/conduit/pkg/lifecycle"
 	lifecyclev2 "github.com/conduitio/conduit/pkg/lifecycle-poc"
 	"github.com/conduitio/conduit/pkg/lifecycle/stream"
+	"github.com/conduitio/conduit/pkg/pipeline"
 	"github.com/conduitio/conduit/pkg/processor"
 
 	"verifharness/lib/hx"
@@ -1001,6 +1006,382 @@ func genSvc(r *hx.Rand, procs []string) []string {
 	return append(ops, "e1", "w")
 }
 
+
+// ---------- service level: the running flag over operation histories ----------
+
+// flagPer: the operations that concern one processor instance and what the real services answered
+// (both as constructors of coq/Swap/Flag.v)
+type flagPer struct {
+	ID  string   `json:"id"`
+	Ops []string `json:"ops"`
+	Obs []string `json:"obs"`
+}
+
+type flagObs struct {
+	Procs []string  `json:"procs"`
+	Done  []string  `json:"done"` // the operations that were carried out
+	Per   []flagPer `json:"per"`
+	Hung  bool      `json:"hung"`
+	Note  string    `json:"note,omitempty"`
+}
+
+var bfailCoq = map[string]string{"plugin": "BPlugin", "egress": "BEgress", "cond": "BCond"}
+
+// runFlag drives the REAL processor.Service (MakeRunnableProcessor, MakeRunnableProcessorForReconfigure,
+// Update, UpdateWhileRunning, Delete), lifecycle.Service (Start, ReconfigureProcessor, StopAndWait) and
+// the real nodes of a v1 pipeline s1 -> procs... -> d1 through an operation history:
+//
+//	"S"            Start;  "S:<k>" Start while the runnable of the first processor cannot be built
+//	"R:<id>:<o>"   live reconfiguration of processor id as provisioning's in-place apply does it
+//	               (UpdateWhileRunning, ReconfigureProcessor, roll the stored config back on failure);
+//	               o = ok | open (new plugin refuses Open) | plugin (registry cannot dispense it) |
+//	               egress (malformed sdk.egress.* setting) | cond (invalid condition)
+//	"X"            StopAndWait
+//	"U:<id>" "D:<id>" "M:<id>"   ordinary Update / Delete / MakeRunnableProcessor (a runnable that is
+//	               handed out is torn down at once)
+//	"E"            one record through the pipeline; observed: which plugin instance of every processor stamped it
+//
+// A reconfiguration is only requested while the harness saw a Start succeed and no stop since; an
+// accepted Delete ends the history.
+func runFlag(procs []string, ops []string) flagObs {
+	o := flagObs{Procs: procs}
+	sys, err := stopx.NewSys(stopx.Topo{Engine: "v1", Sources: 1, Dests: 1, ProcNames: procs})
+	if err != nil {
+		o.Note = "setup: " + err.Error()
+		o.Hung = true
+		return o
+	}
+	w := sys.W
+	w.ReleaseVerdicts()
+	per := map[string]*flagPer{}
+	for _, id := range procs {
+		per[id] = &flagPer{ID: id}
+	}
+	var notes []string
+	add := func(id, op, ob string) {
+		per[id].Ops = append(per[id].Ops, op)
+		per[id].Obs = append(per[id].Obs, ob)
+	}
+	known := func(id string) bool { _, ok := per[id]; return ok }
+	goodCfg := func() processor.Config { return processor.Config{Settings: map[string]string{}, Workers: 1} }
+	class := func(err error) string {
+		switch {
+		case err == nil:
+			return "RNil"
+		case errors.Is(err, processor.ErrProcessorRunning):
+			return "RRunning"
+		case errors.Is(err, processor.ErrInstanceNotFound):
+			return "RGone"
+		case errors.Is(err, pipeline.ErrPipelineNotRunning):
+			return "RNotLive"
+		default:
+			return "RErr"
+		}
+	}
+	// call runs f under a deadline; a call that does not return is an observation
+	call := func(what string, d time.Duration, f func(ctx context.Context) error) error {
+		ctx, cancel := context.WithTimeout(context.Background(), d)
+		defer cancel()
+		done := make(chan error, 1)
+		go func() {
+			defer func() {
+				if r := recover(); r != nil {
+					done <- fmt.Errorf("panic: %v", r)
+				}
+			}()
+			done <- f(ctx)
+		}()
+		select {
+		case err := <-done:
+			return err
+		case <-time.After(d + 2*time.Second):
+			o.Hung = true
+			notes = append(notes, what+" did not return")
+			return context.DeadlineExceeded
+		}
+	}
+	bg := context.Background()
+	// make the stored config of id one whose runnable cannot be built / undo that
+	breakCfg := func(id, kind string) {
+		switch kind {
+		case "plugin":
+			_, _ = sys.PRS.UpdateWhileRunning(bg, id, stopx.MissingProcPlugin, goodCfg())
+		case "egress":
+			_, _ = sys.PRS.UpdateWhileRunning(bg, id, "fake-proc", processor.Config{Workers: 1, Settings: map[string]string{
+				"sdk.egress.allow": "https://ok.example.com:443", "sdk.egress.timeout": "-3s"}})
+		case "cond":
+			if inst, gerr := sys.PRS.Get(bg, id); gerr == nil {
+				inst.Condition = "{{ if "
+			}
+		}
+	}
+	restoreCfg := func(id string) {
+		if inst, gerr := sys.PRS.Get(bg, id); gerr == nil {
+			inst.Condition = ""
+			_, _ = sys.PRS.UpdateWhileRunning(bg, id, "fake-proc", goodCfg())
+		}
+	}
+	gen := func(id string) string { return fmt.Sprintf("RGen %d", sys.Reg.Count(id)-1) }
+	writes := func(evs []stopx.Ev) int {
+		n := 0
+		for _, e := range evs {
+			if e.K == "dwrite" {
+				n++
+			}
+		}
+		return n
+	}
+	live := false
+	nreq := 0
+loop:
+	for _, op := range ops {
+		f := strings.Split(op, ":")
+		switch {
+		case f[0] == "S":
+			if live {
+				continue
+			}
+			kind := ""
+			if len(f) > 1 {
+				if _, ok := bfailCoq[f[1]]; !ok {
+					continue
+				}
+				kind = f[1]
+				breakCfg(procs[0], kind)
+			}
+			serr := call("Start", 10*time.Second, func(ctx context.Context) error { return sys.V1.Start(ctx, stopx.PipelineID) })
+			if kind != "" {
+				restoreCfg(procs[0])
+			}
+			for i, id := range procs {
+				term := "FStart None"
+				if kind != "" && i == 0 {
+					term = "FStart (Some " + bfailCoq[kind] + ")"
+				} else if kind != "" && serr != nil {
+					term = "FStartSkip"
+				}
+				if serr == nil {
+					add(id, term, gen(id))
+				} else if term == "FStartSkip" {
+					add(id, term, "RErr")
+				} else {
+					add(id, term, class(serr))
+				}
+			}
+			live = serr == nil
+		case f[0] == "X":
+			xerr := call("StopAndWait", 25*time.Second, func(ctx context.Context) error { return sys.V1.StopAndWait(ctx, stopx.PipelineID) })
+			for _, id := range procs {
+				add(id, "FStop", class(xerr))
+			}
+			if xerr == nil {
+				live = false
+			}
+		case f[0] == "R":
+			if !live || len(f) != 3 || !known(f[1]) {
+				continue
+			}
+			id, out := f[1], f[2]
+			term := ""
+			switch out {
+			case "ok":
+				term = "FReconf OOk"
+			case "open":
+				term = "FReconf OOpenFail"
+			case "plugin", "egress", "cond":
+				term = "FReconf (OBuildFail " + bfailCoq[out] + ")"
+			default:
+				continue
+			}
+			nreq++
+			switch out {
+			case "ok", "open":
+				_, _ = sys.PRS.UpdateWhileRunning(bg, id, "fake-proc", processor.Config{Workers: 1,
+					Settings: map[string]string{"tag": strconv.Itoa(nreq)}})
+			default:
+				breakCfg(id, out)
+			}
+			rerr := call("ReconfigureProcessor", 5*time.Second, func(ctx context.Context) error {
+				return sys.Reconfigure(ctx, id, out != "open")
+			})
+			if rerr != nil {
+				restoreCfg(id) // the caller rolls the stored config back to the one that is still live
+			}
+			if out == "cond" {
+				if inst, gerr := sys.PRS.Get(bg, id); gerr == nil {
+					inst.Condition = ""
+				}
+			}
+			if rerr == nil {
+				add(id, term, gen(id))
+			} else {
+				add(id, term, class(rerr))
+			}
+		case f[0] == "U" && len(f) == 2 && known(f[1]):
+			_, uerr := sys.PRS.Update(bg, f[1], "fake-proc", goodCfg())
+			add(f[1], "FUpdate", class(uerr))
+		case f[0] == "D" && len(f) == 2 && known(f[1]):
+			derr := sys.PRS.Delete(bg, f[1])
+			add(f[1], "FDelete", class(derr))
+			if derr == nil {
+				o.Done = append(o.Done, op)
+				break loop
+			}
+		case f[0] == "M" && len(f) == 2 && known(f[1]):
+			inst, gerr := sys.PRS.Get(bg, f[1])
+			if gerr != nil {
+				add(f[1], "FMake", class(gerr))
+				break
+			}
+			rp, merr := sys.PRS.MakeRunnableProcessor(bg, inst)
+			if merr == nil && rp != nil {
+				_ = rp.Teardown(bg)
+			}
+			add(f[1], "FMake", class(merr))
+		case f[0] == "E":
+			if !live {
+				for _, id := range procs {
+					add(id, "FEmit", "RStamp None")
+				}
+				break
+			}
+			n0 := writes(w.Events())
+			w.Emit("s1", 1)
+			if !w.WaitFor(6*time.Second, func(evs []stopx.Ev) bool { return writes(evs) > n0 }) {
+				o.Hung = true
+				notes = append(notes, "a record did not reach the destination")
+				for _, id := range procs {
+					add(id, "FEmit", "RStamp None")
+				}
+				break
+			}
+			chain := ""
+			k := 0
+			for _, e := range w.Events() {
+				if e.K == "dwrite" {
+					if k == n0 {
+						chain = e.X
+					}
+					k++
+				}
+			}
+			stamp := map[string]int{}
+			for _, ent := range strings.Split(chain, ";") {
+				if p := strings.SplitN(ent, "#", 2); len(p) == 2 {
+					if n, aerr := strconv.Atoi(p[1]); aerr == nil {
+						if _, dup := stamp[p[0]]; dup {
+							stamp[p[0]] = -1 // stamped twice
+						} else {
+							stamp[p[0]] = n
+						}
+					}
+				}
+			}
+			for _, id := range procs {
+				if n, ok := stamp[id]; ok && n >= 1 {
+					add(id, "FEmit", fmt.Sprintf("RStamp (Some %d)", n-1))
+				} else {
+					add(id, "FEmit", "RStamp None")
+				}
+			}
+		default:
+			continue
+		}
+		o.Done = append(o.Done, op)
+	}
+	if live {
+		_ = call("StopAndWait", 25*time.Second, func(ctx context.Context) error { return sys.V1.StopAndWait(ctx, stopx.PipelineID) })
+	}
+	for _, id := range procs {
+		o.Per = append(o.Per, *per[id])
+	}
+	o.Note = strings.Join(notes, ";")
+	return o
+}
+
+func emitFlag(w *hx.Writer, procs []string, ops []string) {
+	if len(procs) == 0 {
+		procs = []string{"p1"}
+	}
+	o := runFlag(procs, ops)
+	items := make([]string, len(o.Per))
+	for i, p := range o.Per {
+		items[i] = hx.Pair(hx.List(p.Ops), hx.List(p.Obs))
+	}
+	w.Add(map[string]any{"input": map[string]any{"kind": "flag", "procs": procs, "ops": ops}, "observed": o},
+		fmt.Sprintf("SFlag %s %s", hx.List(items), hx.Bool(o.Hung)))
+}
+
+// genFlag: a history around live reconfigurations with every outcome, each followed by probes of the
+// guards and by records; stops, restarts and starts that cannot build are mixed in.
+func genFlag(r *hx.Rand, procs []string) []string {
+	pick := func() string { return procs[r.Intn(len(procs))] }
+	kinds := []string{"plugin", "egress", "cond"}
+	probes := func(id string, ops []string) []string {
+		for _, p := range []string{"U", "M", "D"} {
+			if r.Chance(1, 2) {
+				ops = append(ops, p+":"+id)
+			}
+		}
+		if r.Chance(1, 2) {
+			ops = append(ops, "E")
+		}
+		return ops
+	}
+	var ops []string
+	if r.Chance(1, 4) {
+		ops = append(ops, "S:"+kinds[r.Intn(3)], "U:"+procs[0])
+		if r.Chance(1, 2) {
+			ops = append(ops, "M:"+procs[0])
+		}
+	}
+	ops = append(ops, "S")
+	if r.Bool() {
+		ops = append(ops, "E")
+	}
+	n := r.Range(2, 7)
+	for i := 0; i < n; i++ {
+		id := pick()
+		switch x := r.Intn(100); {
+		case x < 60:
+			out := "ok"
+			switch y := r.Intn(100); {
+			case y < 25:
+				out = "ok"
+			case y < 45:
+				out = "open"
+			default:
+				out = kinds[r.Intn(3)]
+			}
+			ops = append(ops, "R:"+id+":"+out)
+			ops = probes(id, ops)
+		case x < 72:
+			ops = append(ops, "E")
+		case x < 84:
+			ops = probes(pick(), ops)
+		default:
+			ops = append(ops, "X", "U:"+id)
+			if r.Chance(1, 3) {
+				ops = append(ops, "M:"+id)
+			}
+			if r.Chance(1, 3) {
+				ops = append(ops, "S:"+kinds[r.Intn(3)], "U:"+procs[0])
+			}
+			ops = append(ops, "S", "E")
+		}
+	}
+	ops = append(ops, "E", "X")
+	for _, id := range procs {
+		ops = append(ops, "U:"+id)
+	}
+	if r.Chance(1, 3) {
+		ops = append(ops, "D:"+pick())
+	}
+	return ops
+}
+
+var flagChains = [][]string{{"p1"}, {"p1", "p2"}, {"p10", "p1"}, {"p1"}, {"a", "b", "c"}}
+
 // ---------- engine v2 ----------
 
 func runV2() (sentinel, unchanged bool) {
@@ -1226,10 +1607,19 @@ func main() {
 				}
 				emitSvc(w, c, ops)
 			}
+			// the running flag across a failed build of every kind, a failed open, a swap, a stop, a restart
+			emitFlag(w, []string{"p1"}, []string{"S:plugin", "U:p1", "S", "E", "R:p1:plugin", "U:p1", "M:p1", "D:p1", "E",
+				"R:p1:egress", "U:p1", "R:p1:cond", "M:p1", "R:p1:open", "D:p1", "E", "R:p1:ok", "E", "U:p1", "M:p1", "D:p1",
+				"X", "U:p1", "M:p1", "S", "E", "R:p1:cond", "U:p1", "X", "U:p1"})
+			emitFlag(w, []string{"p10", "p1"}, []string{"S", "E", "R:p1:plugin", "U:p1", "U:p10", "R:p10:cond", "D:p10", "M:p1",
+				"E", "R:p1:ok", "E", "X", "U:p1", "U:p10"})
 		}
 		for i := 0; i < o.N; i++ {
 			r := root.Fork(uint64(o.Shard)<<32 | uint64(i))
-			if i%10 == 9 {
+			if i%10 == 7 {
+				procs := flagChains[(o.Shard+i/10)%len(flagChains)]
+				emitFlag(w, procs, genFlag(r, procs))
+			} else if i%10 == 9 {
 				cs := chains()
 				procs := cs[(o.Shard*o.N/10+i/10)%len(cs)]
 				emitSvc(w, procs, genSvc(r, procs))
@@ -1297,6 +1687,25 @@ func replayOne(w *hx.Writer, m map[string]any) {
 			procs = []string{"p1"}
 		}
 		emitSvc(w, procs, ops)
+	case "flag":
+		var ops, procs []string
+		if l, ok := in["ops"].([]any); ok {
+			for _, x := range l {
+				if str, ok := x.(string); ok {
+					ops = append(ops, str)
+				}
+			}
+		}
+		if ps, ok := in["procs"].([]any); ok {
+			seen := map[string]bool{}
+			for _, x := range ps {
+				if str, ok := x.(string); ok && str != "" && !seen[str] && !strings.Contains(str, ":") {
+					seen[str] = true
+					procs = append(procs, str)
+				}
+			}
+		}
+		emitFlag(w, procs, ops)
 	case "v2":
 		emitV2(w)
 	}
